@@ -62,6 +62,107 @@ def real_summary(parse_summary, text):
             idx.append(int(msg[5:].split(":")[0]))
         return ("errors", idx)
 
+RESAMPLING = {"NN": "nearest-neighbor", "BL": "bilinear", "CC": "cubic convolution"}  # ALOS-2 product format, independent copy
+FACILITIES = {"SCMO": "spacecraft control mission operation system", "EICS": "earth intelligence collection and sharing system"}
+
+
+def gen_summary(rng, decoders):
+    """a random well-formed summary: (lines in file order, expected flat mapping group path -> attrs); the expected
+    conversions are written here from the documentation, not taken from summary.py (ids: C15-verified decoders)"""
+    import datetime as _dt
+
+    def date8():
+        d = _dt.date(2014, 1, 1) + _dt.timedelta(days=rng.choice([0, 58, 59, 364, 365, rng.randrange(0, 13000)]))
+        return d.strftime("%Y%m%d"), d.isoformat()
+
+    def clock():
+        h, m, s_, ms = rng.choice([(0, 0, 0, 0), (23, 59, 59, 999), (12, 0, 0, 0), (rng.randrange(24), rng.randrange(60), rng.randrange(60),
+                                                                                    rng.choice([0, 1, 10, 100, 500, 999, rng.randrange(1000)]))])
+        return f"{h:02d}:{m:02d}:{s_:02d}.{ms:03d}"
+
+    def free_text():
+        return rng.choice(["abc", "a b", "x=y", 'say "hi"', "", "=", '"', "a=\"b", "MapNorth", "  padded  ", "Ünïcode", "k=\"v\" z"])
+
+    def int_text():
+        v = rng.choice([0, 1, -1, 7, 53, 9196, 60568, 2**31, -(2**31), rng.randrange(-10**6, 10**6)])
+        return rng.choice([str(v), f" {v}", f"{v} ", f"{v:>8d}", f"+{v}" if v >= 0 else str(v), f"{v:06d}" if v >= 0 else str(v)]), v
+
+    def float_text():
+        v = rng.choice([0.0, 25.0, 6.25, 798.2, -21.3, 1e-3, 123456.789, rng.uniform(-1e4, 1e4)])
+        t = rng.choice([repr(v), f"{v:.6f}", f"{v:e}", f" {v!r}", f"{v:12.4f}"])
+        return t, float(t)
+
+    sections, want = {}, {}
+    # ordering information: passed through
+    odi = {f"Key{i}": free_text() for i in range(rng.randrange(0, 3))}
+    odi["SceneId"] = free_text()
+    sections["Odi"], want["ordering_information"] = odi, dict(odi)
+    # scene specification
+    orbit, frame = rng.choice([0, 1, 29076, 99999, rng.randrange(100000)]), rng.choice([0, 600, 7190, 9999, rng.randrange(10000)])
+    d8, iso = date8()
+    shift_t, shift = rng.choice([("0", 0), ("-1", -1), ("+2", 2), ("5", 5), ("-5", -5), (" 3", 3)])
+    sections["Scs"] = {"SceneID": f"ALOS2{orbit:05d}{frame:04d}-{d8[2:]}", "SceneShift": shift_t}
+    want["scene_specification"] = {"mission_name": "ALOS2", "orbit_accumulation": orbit, "scene_frame": frame, "date": iso,
+                                   "SceneShift": shift}
+    # product specification: id decoded (C15), lookups, int, passthrough, everything else float
+    pid = rng.choice(["WWDR1.5RUA", "WBDR1.1__D", "UBSR1.5GUA", "HBQR1.1__A", "FBDL1.5RUD", "WBSR1.5RUD", "SBSR3.1GUA"])
+    rs = rng.choice(sorted(RESAMPLING))
+    zone_t, zone = int_text()
+    md, odp, adp = free_text(), free_text(), free_text()
+    extra_f = {name: float_text() for name in rng.sample(["PixelSpacing", "LineSpacing", "Foo", "SceneCenterLat"], rng.randrange(0, 4))}
+    sections["Pds"] = {"ProductID": pid, "ResamplingMethod": rs, "UTM_ZoneNo": zone_t, "MapDirection": md,
+                       "OrbitDataPrecision": odp, "AttitudeDataPrecision": adp, **{k_: t for k_, (t, _) in extra_f.items()}}
+    try:
+        dec = dict(decoders.decode_product_id(pid))
+    except ValueError:
+        dec = None
+    if dec is None:
+        return None
+    want["product_specification"] = {**dec, "ResamplingMethod": RESAMPLING[rs], "UTM_ZoneNo": zone, "MapDirection": md,
+                                     "OrbitDataPrecision": odp, "AttitudeDataPrecision": adp, **{k_: v for k_, (_, v) in extra_f.items()}}
+    # image information: ...DateTime keys are timestamps, the rest floats
+    img, wimg = {}, {}
+    for name in rng.sample(["SceneCenterDateTime", "SceneStartDateTime", "SceneEndDateTime"], rng.randrange(1, 4)):
+        d8_, iso_ = date8()
+        c = clock()
+        sep = rng.choice([" ", " ", "  "])
+        img[name], wimg[name] = f"{d8_}{sep}{c}", f"{iso_}T{c}"
+    for name in rng.sample(["OffNadirAngle", "ImageSceneCenterLatitude", "Bar"], rng.randrange(0, 4)):
+        t, v = float_text()
+        img[name], wimg[name] = t, v
+    sections["Img"], want["image_information"] = img, wimg
+    # product information
+    n_files = rng.randrange(3, 11)
+    lvl = rng.choice(["L15", "L11"])
+    bp_t, bp = int_text()
+    sz_t, sz = float_text()
+    fmt = free_text()
+    pdi = {"ProductFormat": fmt, "BitPixel": bp_t, "ProductDataSize": sz_t, f"CntOf{lvl}ProductFileName": str(n_files)}
+    files = [f"file-{i}-{rng.randrange(1000)}" for i in range(n_files)]
+    pdi.update({f"{lvl}ProductFileName{i + 1:02d}": f for i, f in enumerate(files)})
+    idx = rng.sample(range(0, 12), rng.randrange(1, 4))
+    shapes = {}
+    for i in idx:
+        (pt, pv), (lt, lv) = int_text(), int_text()
+        pdi[f"NoOfPixels_{i}"], pdi[f"NoOfLines_{i}"] = pt, lt
+        shapes[str(i)] = (pv, lv)
+    sections["Pdi"] = pdi
+    want["product_information"] = {"ProductFormat": fmt, "BitPixel": bp, "ProductDataSize": sz}
+    want["product_information/data_files"] = {"volume_directory": files[0], "sar_leader": files[1], "sar_imagery": files[2:-1],
+                                              "sar_trailer": files[-1]}
+    want["product_information/shapes"] = shapes
+    ach = {f"Check{i}": rng.choice(["GOOD", "", "NG", " "]) for i in range(rng.randrange(1, 4))}
+    sections["Ach"], want["autocheck"] = ach, {k_: (v or "N/A") for k_, v in ach.items()}
+    rad = {"PracticeResultCode": free_text()}
+    sections["Rad"], want["result_information"] = rad, dict(rad)
+    d8, iso = date8()
+    fac = rng.choice(sorted(FACILITIES))
+    sections["Lbi"] = {"ObservationDate": d8, "ProcessFacility": fac}
+    want["label_information"] = {"ObservationDate": iso, "ProcessFacility": FACILITIES[fac]}
+    lines = [f'{sec}_{k_}="{v}"' for sec, kv in sections.items() for k_, v in kv.items()]
+    rng.shuffle(lines)  # any order, within and across sections
+    return lines, want
+
 
 def run(ses):
     from ceos_alos2 import summary as S
@@ -220,6 +321,37 @@ def run(ses):
                       replay=lambda m: {"confirmed": True, "input": str(bad[0][:2]), "observed": str(bad[0][2])[:300],
                                         "expected": "documented conversion per key"},
                       detail={"wrong": str(bad[:1])[:400]})
+    # (5) random full summaries: key order, value alphabets, 3..10 product files, several shape indices, boundary timestamps ----
+    from ceos_alos2 import decoders as DEC
+
+    n = 0
+    bad = []
+    trials = 3000 if thorough else 400
+    for t in range(trials):
+        made = gen_summary(rng, DEC)
+        if made is None:
+            continue
+        lines, want_r = made
+        for sep in ("\n", "\r\n"):
+            n += 1
+            try:
+                g = S.open_summary(M({"summary.txt": sep.join(lines).encode()}), "summary.txt")
+                got = {k_: v for k_, v in flat(g).items() if k_ != "/"}
+            except BaseException as e:
+                got = f"{type(e).__name__}: {getattr(e, 'exceptions', e)}"[:160]
+            if got != want_r or (not isinstance(got, str) and any(type(got[g_][k_]) is not type(v) for g_, kv in want_r.items()
+                                                                   for k_, v in kv.items())):
+                diff = got if isinstance(got, str) else {g_: {k_: (v, want_r.get(g_, {}).get(k_, "<absent>")) for k_, v in kv.items()
+                                                              if want_r.get(g_, {}).get(k_, "<absent>") != v}
+                                                         for g_, kv in got.items() if want_r.get(g_) != kv}
+                bad.append((sep.join(lines), diff))
+    ses.bounded_check("C14/bounded/random-summaries-routed-and-converted", not bad,
+                      bound=f"{n} texts: {trials} random summaries (shuffled lines, 3..10 product files, 1..3 shape indices, signed / padded "
+                            "numbers, values with spaces, '=' and quotes, timestamps at full seconds / midnight / leap day) x LF/CRLF",
+                      function="ceos_alos2.summary.transform_summary", evaluations=n,
+                      replay=lambda m: {"confirmed": True, "input": bad[0][0], "observed (got, wanted)": str(bad[0][1])[:400],
+                                        "expected": "documented conversion per key"},
+                      detail={"wrong": str(bad[:1])[:600], "n_wrong": len(bad)})
     # at least one solver-free *structural* obligation so that the session is not empty of decided obligations
     import inspect
 
